@@ -56,7 +56,7 @@ class Stream:
 
 class Check:
     def __init__(self, pid, streams, level="proof", rule="", assumptions=None, extra_trusted=None,
-                 theorem_file=None, oracle=None, post=None):
+                 theorem_file=None, oracle=None, post=None, pre=None):
         self.pid = pid
         self.streams = streams
         self.level = level
@@ -64,7 +64,8 @@ class Check:
         self.assumptions = assumptions or []
         self.extra_trusted = extra_trusted or []
         self.theorem_file = theorem_file or ("Properties/%s.v" % pid)
-        self.post = post          # optional callable(ctx, result) for property specific extras
+        self.post = post          # optional callable(tier, seed, cov, result) for property specific extras
+        self.pre = pre            # optional callable(tier, seed) -> notes; runs before the proofs are (re)checked
 
 
 # ---------------------------------------------------------------- known findings
@@ -254,6 +255,7 @@ def main(check, argv):
     lines = []          # stdout lines
     findings = load_findings(pid)
 
+    pre_notes = check.pre(tier, seed) if check.pre else None
     proofs = check_proofs(check)
     proof_broken = (not proofs["build_ok"]) or proofs["hygiene"] or proofs["discharged"] != proofs["obligations"] or proofs["obligations"] == 0
     tool_errs = build_tools(check.streams)
@@ -325,7 +327,7 @@ def main(check, argv):
                 "theorems": proofs["theorems"], "obligations": proofs["obligations"], "discharged": proofs["discharged"],
                 "build_tail": proofs["build_tail"], "stream_errors": stream_errs,
                 "broken_correspondence": [{"stream": st.name, "id": c[0], "input": c[2], "model": c[3], "observed": o} for st, c, o in corr[:20]],
-                "n_correspondence_differences": len(corr)}
+                "n_correspondence_differences": len(corr), "regenerated": pre_notes}
         json.dump(what, open(os.path.join(ROOT, path), "w"), indent=1)
         lines.append("VIOLATION property=%s replay=%s no-failing-input-found" % (pid, path))
         violation = True
@@ -348,6 +350,8 @@ def main(check, argv):
         "known_finding_hits": {f["key"]: f["hits"] for f in findings},
         "exhaustive": False,
     }
+    if pre_notes:
+        cov["regenerated"] = pre_notes
     if check.post:
         check.post(tier, seed, cov, result)
         violation = result["violation"]; lines = result["lines"]
